@@ -279,6 +279,11 @@ def cmdline_handler(argv):
         else:
             try:
                 with filtered_hy_exceptions():
+                    # `run_path` would overwrite `sys.argv[0]` with the
+                    # absolute path we pass it. Python leaves the script
+                    # name as it was given on the command line, and we've
+                    # already set `sys.argv` that way.
+                    runhy._ModifiedArgv0 = lambda value: nullcontext()
                     runhy.run_path(str(filename), run_name="__main__")
                 return 0
             except FileNotFoundError as e:
